@@ -52,7 +52,7 @@ chk("C10", "exploration", T + "export/import steps inside lock-step histories (s
     "Fidelity: export of every kind of retained version (empty, single leaf, inherited root, >10 000 nodes, trees holding the empty key in an eighth of the runs) through both codecs, imported tree audited and continued. Totality: mutated and generated ExportNode sequences fed to Add/Commit by callers that give up at the first error or keep feeding and commit anyway; no panic/hang, nothing visible unless Commit succeeded, committed imports internally consistent and holding every accepted leaf.", N + " Import versions capped at 10^6 (allocation of version+1 nonces).", "DESIGN.md §5 C10")
 
 chk("C06", "exploration", "deterministic simulation of schedules: writer, readers and iavl's own pruner/exporter goroutines run as tasks of a seeded cooperative scheduler (guarded hooks in iavl, lock-free storage calls and operation boundaries are yield points, simulated clock for the pruner's sleeps); race-detector build whose hand-off is hidden from the detector; every read compared with the precomputed contents of its version",
-    "Seeded search over schedules x histories x {cache 0/small/large} x {fast index on/off} x {sync, async pruning, SetCommitting bracket with deletion requests between or inside the brackets}. Oracles: exact contents/proofs/export stream per version, no data race (happens-before detector on a serialised execution whose scheduler hand-offs create no happens-before edges), pinned versions not deleted, no panic, no deadlock. Recorded schedules are explicit, replayable and minimised.", "Preemption only at yield points (races between yield points are still found by the HB detector). Readers only hold versions the writer does not prune (lease registry). " + N, "DESIGN.md §5 C06")
+    "Seeded search over schedules x histories x {cache 0/small/large} x {fast index on/off} x {sync, async pruning, SetCommitting bracket with deletion requests between or inside the brackets}. Oracles: exact contents/proofs/export stream per version, no data race (happens-before detector on a serialised execution whose scheduler hand-offs create no happens-before edges), pinned versions not deleted, no panic, no deadlock. Recorded schedules are explicit, replayable and minimised. One run in sixteen (mode commit-window) queues real reader goroutines on the library's own locks right after every physical write of a commit and lets the locks decide what they see.", "Preemption only at yield points (races between yield points are still found by the HB detector). Readers only hold versions the writer does not prune (lease registry). " + N, "DESIGN.md §5 C06")
 
 chk("C19", "exploration", "deterministic simulation: normal-form histories executed in lock-step on the SQLite-backed v2 tree (real SQLite files in a per-run scratch directory), the v1 tree on the simulated disk and the reference models; option swarm; simulator-owned order of the two halves of every SaveVersion",
     "Seeded normal-form histories (incl. empty versions and trees shrinking to empty) x option swarm (checkpoint interval, height filter, eviction depth, sharding, checkpoint memory); at every commit v2 hash = v1 hash = R2 hash, after every step Get/Has/Size/Height and forward/reverse/inclusive iterators over the bound set vs R1.", "v2 runs on real SQLite files (third party, trusted); only API results enter the event log. " + N, "DESIGN.md §5 C19")
